@@ -10,9 +10,9 @@ SPEC = dict(
     entries=dict(
         quick=[
             dict(name="c39_snmp_any", bounds="every datagram of 0..5 fully symbolic octets" + _NONEG, reach=["rejected"], sample_every=97),
-            dict(name="c39_snmp_header", bounds=_SK + "6 templates: outer type+length; version type+length; version value + community type; community length + an octet inside it; long-form (0x81) lengths of the message and the community; a community of up to 130 octets with symbolic length (Squid's buffer holds 128); datagram lengths 0..16 and full" + _NONEG, reach=["rejected", "parsed_vars"], sample_every=797),
+            dict(name="c39_snmp_header", bounds=_SK + "7 templates: outer type+length; version type+length; version value + community type; community length + an octet inside it; long-form (0x81) lengths of the message and the community; a community of up to 130 octets with symbolic length (Squid's buffer holds 128); a community with a 4-octet long-form length (0x84) whose two high octets are symbolic (lengths of 2^31 and more); datagram lengths 0..16 and full" + _NONEG, reach=["rejected", "parsed_vars"], sample_every=797),
             dict(name="c39_snmp_pdu", bounds=_SK + "5 templates: PDU type+length; request-id type+length; error-status length+value; GETBULK max-repetitions length+value; v1 TRAP layout (enterprise OID length, time-stamp length+value); datagram lengths 13..27 and full" + _NONEG, reach=["rejected", "parsed_vars"], sample_every=797),
-            dict(name="c39_snmp_vars", bounds=_SK + "8 templates: binding-list type+length; binding type+length; name type+length; first sub-identifier + a continuation octet; value type+length; value type+length+2 content octets (every value type); two bindings with symbolic value type/length/content; a name of up to 71 sub-identifiers with symbolic length (MAX_NAME_LEN is 64); datagram lengths 24..43 and full" + _NONEG, reach=["rejected", "parsed_vars"], sample_every=797),
+            dict(name="c39_snmp_vars", bounds=_SK + "9 templates: binding-list type+length; binding type+length; name type+length; first sub-identifier + a continuation octet; value type+length; value type+length+2 content octets (every value type); two bindings with symbolic value type/length/content; a name of up to 71 sub-identifiers with symbolic length (MAX_NAME_LEN is 64); an OCTET STRING value with a 4-octet long-form length whose two high octets are symbolic; datagram lengths 24..43 and full" + _NONEG, reach=["rejected", "parsed_vars"], sample_every=797),
             dict(name="c39_snmp_negint", bounds=_SK + "symbolic content octets (negative values included) at every position decoded as an integer: version; request-id/error-status/error-index; GETBULK counts; TRAP generic/specific/time-stamp; a binding value of symbolic type with 2 content octets; full length only; interpreter only (no native differential replay: the native UBSan build stops at asn_parse_int's left shift of a negative int)", reach=["rejected", "parsed_vars"], max_samples=0),
             dict(name="c39_known_maxlen_overread", known=True, bounds="KNOWN FINDING C39-snmp-maxlen-overread only: the real buffer discipline with the real sizes (4096 zeroed octets, 4095 received): a well-formed GET with 407 bindings whose last binding's value is an OCTET STRING header with a symbolic long-form length octet (0x81..0x84) as the very last octet of the datagram; strict memory-safety oracle; its violations are listed in known_findings.json and printed as KNOWN-FINDING", reach=[], max_samples=0, sample_every=0),
         ],
